@@ -4,6 +4,7 @@ import (
 	"fmt"
 	"go/token"
 	"go/types"
+	"strings"
 
 	"golang.org/x/tools/go/ssa"
 )
@@ -373,4 +374,9 @@ func runC15(c *Ctx) {
 	// V5
 	c.ruleOwnDc("V5-shared-injected-names", c.engineExecFns())
 	c.Min("V5-shared-injected-names", 25)
+	// V8: nothing an execution computes is kept on the compiled rule: its nodes are shared by every
+	// execution of the rule, also concurrent ones (the node-write part of the immutability rule of C07)
+	c.only = func(key string) bool { return strings.Contains(key, "#ast-") }
+	c.ruleU2("V8-nothing-kept-on-shared-nodes")
+	c.only = nil
 }
